@@ -115,7 +115,7 @@ def check_output(out, kw):
                             return ("data: URI with content type %r kept" % mt, "data-content-type")
                 if key == (None, "style"):
                     dec = css_decode(val).lower()
-                    if re.search(r"url\s*\(", dec) or "expression" in dec or "javascript" in dec or "@import" in dec:
+                    if re.search(r"url\s*\(", dec):       # the property promises "never url()"; nothing else is demanded
                         return ("style keeps %r" % val, "style-url")
                     for decl in val.split(";"):
                         if not decl.strip():
